@@ -34,6 +34,10 @@ pub struct Scn {
     /// threshold stays at the default because the C API cannot change it
     #[serde(default = "no_inject")]
     pub gc_inject: Inject,
+    /// role comparison with a retry: the module body fails until the host has set a global flag;
+    /// each role is run, fails, the flag is set on the same interpreter, and the role is run again
+    #[serde(default)]
+    pub role_retry: bool,
 }
 
 fn no_inject() -> Inject {
@@ -158,7 +162,7 @@ impl Check for C19 {
             0 => Inject::Prob { pm: *rng.pick(&[10u32, 100, 500]), seed: rng.next_u64() },
             _ => Inject::None,
         };
-        Scn { case, imports, role_module, role_main, host_activity_pm: *rng.pick(&[20u32, 200, 1000]), fuel: 400_000, gc_inject }
+        Scn { case, imports, role_module, role_main, host_activity_pm: *rng.pick(&[20u32, 200, 1000]), fuel: 400_000, gc_inject, role_retry: rng.chance(0.25) }
     }
 
     fn generate_stream(&self, stream: &str, rng: &mut Rng, idx: usize, tier: Tier) -> Scn {
@@ -175,7 +179,7 @@ impl Check for C19 {
             case.module_path = Some("/app/main.ts".into());
         }
         let fuel = if e.modules.is_empty() { 400_000 } else { 1_500_000 };
-        Scn { case, imports: e.modules.clone(), role_module: None, role_main: 0, host_activity_pm: *rng.pick(&[20u32, 200, 1000]), fuel, gc_inject: Inject::None }
+        Scn { case, imports: e.modules.clone(), role_module: None, role_main: 0, host_activity_pm: *rng.pick(&[20u32, 200, 1000]), fuel, gc_inject: Inject::None, role_retry: false }
     }
 
     fn shrink(&self, scn: &Scn) -> Vec<Scn> {
@@ -251,7 +255,11 @@ impl Check for C19 {
         {
             nontrivial = true;
             rep.bump("role_comparisons", 1);
-            let text = role_text(rm);
+            let text = if scn.role_retry {
+                format!("if ((globalThis as any).__ready !== true) {{ throw new Error(\"not ready\"); }}\n{}", role_text(rm))
+            } else {
+                role_text(rm)
+            };
             let mk = |source: String, path: Option<&str>| -> RunSpec {
                 let mut s = rm.spec(Driver::Step, GcSched::threshold(100), Tape::from_vec(vec![]), scn.fuel);
                 s.source = source;
@@ -259,7 +267,25 @@ impl Check for C19 {
                 s
             };
             // (a) entry program
-            let a = run_solo(&mk(text.clone(), Some("/m/T.ts")));
+            // one role = one interpreter; with `role_retry` the first attempt fails, the host sets
+            // the flag with a small script, and the second attempt is what gets compared
+            let run_role = |spec: RunSpec| -> Outcome {
+                if !scn.role_retry {
+                    return run_solo(&spec);
+                }
+                tsrun::verif::reset();
+                let mut h = crate::host::new_interp_with(spec.clock_start, spec.random_seed, &spec.internal_sources);
+                let first = crate::props::c11::run_to_end(&mut h, spec.clone());
+                let mut flag = spec.clone();
+                flag.source = "(globalThis as any).__ready = true; 0".to_string();
+                flag.path = None;
+                let _ = crate::props::c11::run_to_end(&mut h, flag);
+                let mut second = crate::props::c11::run_to_end(&mut h, spec);
+                second.console.insert(0, format!("first attempt: {}", first.error_text.clone().unwrap_or(first.result.clone())));
+                tsrun::verif::set_fuel(None);
+                second
+            };
+            let a = run_role(mk(text.clone(), Some("/m/T.ts")));
             let a_view = format!(
                 "{:?}|{:?}|{:?}|{:?}",
                 a.exports.iter().find(|(n, _)| n == "out").map(|(_, v)| v.clone()),
@@ -290,12 +316,12 @@ impl Check for C19 {
             // (b) host-provided dependency
             let mut sb = mk(main_for("/m/T.ts"), Some("/m/main_b.ts"));
             sb.modules.insert("/m/T.ts".into(), text.clone());
-            let b = run_solo(&sb);
+            let b = run_role(sb);
             let b_view = view_of(&b);
             // (c) internal source module
             let mut sc = mk(main_for("app:T"), Some("/m/main_c.ts"));
             sc.internal_sources.insert("app:T".into(), text.clone());
-            let c = run_solo(&sc);
+            let c = run_role(sc);
             let c_view = view_of(&c);
             let ok_a = a.result.starts_with("complete:");
             if ok_a {
